@@ -56,6 +56,11 @@ def prelude(rng, case):
     if timed and rng.random() < 0.6:
         sc += scripts.random_script(rng, case, kinds=['hold', 'hold_point'],
                                     max_cmds=2, horizon=6)
+    if timed and rng.random() < 0.25:
+        # a reload (same definition) after the state was created: it
+        # rewrites the stored workflow parameters
+        sc.append({'at': rng.randint(5, 9), 'cmd': 'reload_workflow',
+                   'args': {}})
     if timed and rng.random() < 0.4:
         sc.append({'at': rng.randint(1, 5), 'cmd': 'stop',
                    'args': {'cycle_point': str(rng.randint(
